@@ -48,10 +48,16 @@ PROPS = {
         "theorems": [
             "weightMultiplier_eq", "mulOf_mono", "mulOf_year_le_16", "calculateWeight_ok", "weight_ge_amount",
             "weight_le_16x", "weight_mono_amount", "weight_mono_duration", "weight_superadditive", "curve_anchor_points",
+            "MantraDex.C10H.latest_after_set", "MantraDex.C10H.update_weights_same_delta", "MantraDex.C10H.update_weights_covered_partial",
+            "MantraDex.C10H.update_weights_covered_counterexample", "MantraDex.C10H.reconcile_clears",
         ],
+        "extra_modules": ["MantraDex.Properties.C10H"],
         "streams": {"farmmath": (6000, 300000), "fm_hist": (60, 3000)},
         "what": "weight curve: weight >= amount, <= 16*amount (multiplier at one year evaluated from the generated coefficients), "
-                "monotone in amount and duration, super-additive in amount (source of F-07)",
+                "monotone in amount and duration, super-additive in amount (source of F-07); update_weights moves the user's and the "
+                "contract's latest weight by the same delta at epoch+1 (close: min(w, user weight), after the F-07 fix), so the total keeps covering "
+                "any set of users that contains every closer (the version without that side condition is refuted by a proved counterexample); "
+                "a user without open positions has no weight history / cursor",
     },
 
     "C03": {
@@ -95,6 +101,19 @@ PROPS = {
                 "the ledger entitlement Spec.spanReward; each payment is the floor of the exact share; Rewards query = Claim payout (single LP token)",
         "assumptions": ["the end-to-end statement over whole histories (any claim schedule pays the same) is validated per generated claim by the "
                         "independent ledger monitor, not proved; query=claim proved for users with one LP token"],
+    },
+
+    "C08": {
+        "module": "MantraDex.Properties.C08", "ns": "MantraDex.C08",
+        "theorems": ["normal_withdraw_requires_unlock", "normal_withdraw_pays_exact", "emergency_after_unlock_is_normal", "close_sets_expiry",
+                     "partial_close_splits", "expand_adds_exact", "others_cannot_touch_position", "create_position_identifier"],
+        "streams": {"fm_hist": (80, 4000)},
+        "what": "a non-emergency withdrawal is accepted only from the owner, for a closed position whose unlock instant (close time + unlocking "
+                "duration, boundary second included) is reached, pays exactly the recorded amount and deletes the position; an emergency request after "
+                "unlocking is the normal withdrawal; closing fixes expiring_at = now + duration; a partial close splits amount = remainder + part "
+                "(same owner, fresh p-N id); expanding adds exactly the attached amount; messages from anyone who is neither the owner nor the pool "
+                "manager leave a position untouched (given the next generated id is free); new ids are u-<given> / p-<counter+1> and never existing ones",
+        "assumptions": ["frame theorem assumes the next generated identifier is unused (guaranteed by the identifier scheme in reachable states; validated by the history stream)"],
     },
 
     "C12": {
